@@ -256,6 +256,7 @@ def _is_record_base_of_attr(expr: ast.AST, name_node: ast.Name, du, n) -> bool:
 
 
 RECORD_FIELDS = None
+RECORD_RESULT_INDEX = None   # set by core: (function, cfg node, call ast, field name) -> position of the field in the record the call returns / yields, or None
 RECORD_FIELD_NAMES: set = set()   # names of the fields of all record classes of the program (set by core)   # set by core: (function, cfg node, call ast) -> ordered field names of the NamedTuple/dataclass constructed, or None
 
 
@@ -376,7 +377,16 @@ def origins(du: DefUse, n: Node, e: ast.AST, path=(), _seen=None, depth: int = 0
         # a call): the same origin, one component deeper
         base = origins(du, n, e.value, (), set(), depth + 1)
         if base and all(o.kind == "elem" or (o.kind == "expr" and isinstance(o.leaf, ast.Call)) for o in base):
-            return [Origin(o.kind, o.leaf, tuple(o.path) + (e.attr,) + path, o.node, o.name) for o in base]
+            out = []
+            for o in base:
+                comp = e.attr
+                if RECORD_RESULT_INDEX is not None and not o.path:
+                    # which record the call hands out is known from the callee: the field is a position of the tuple
+                    idx = RECORD_RESULT_INDEX(du.cfg.fi, o.node, o.leaf, e.attr)
+                    if idx is not None:
+                        comp = idx
+                out.append(Origin(o.kind, o.leaf, tuple(o.path) + (comp,) + path, o.node, o.name))
+            return out
     if isinstance(e, ast.Call) and path and isinstance(path[0], int) and RECORD_FIELDS is not None:
         # tuple-unpacking / indexing of a NamedTuple constructor call
         o = Origin("expr", e, (), n)
